@@ -7,7 +7,7 @@ import core
 import scancorr
 
 
-def run_family(R, prop_files, deps, gen_modules, oracle=None, what="", max_quick=None):
+def run_family(R, prop_files, deps, gen_modules, oracle=None, what="", max_quick=None, eq="scan_out_eqb"):
     rng = random.Random(R.seed)
     for f in core.gen():
         R.broken.append({"what": "translator failed: " + f["translator"], "log": f["stderr"]})
@@ -25,7 +25,7 @@ def run_family(R, prop_files, deps, gen_modules, oracle=None, what="", max_quick
     if R.tier == "quick" and max_quick and len(progs) > max_quick:
         keep = [p for p in progs if p.get("keep")]            # hand-picked boundary programs are never sampled away
         progs = keep + rng.sample([p for p in progs if not p.get("keep")], max(0, max_quick - len(keep)))
-    outs, mism, broken = scancorr.run_cases(progs, R, R.pid.lower())
+    outs, mism, broken = scancorr.run_cases(progs, R, R.pid.lower(), eq=eq)
     R.broken.extend(broken)
     for p, o in zip(progs, outs):
         R.count("family:" + p["family"].split(".")[-1])
